@@ -8,7 +8,8 @@ or `<param> is None`, and whose bodies are a single `return` of one of the recog
 else is a TranslationError (handled like a broken bridge)."""
 from __future__ import annotations
 import ast
-from typing import List, Tuple
+import copy
+from typing import Dict, List, Optional, Tuple
 from .py2lean import TranslationError, find_class, find_func, strip_doc, lean_list
 from .common import parse, HEADER, exc_names, lean_exc
 
@@ -43,35 +44,330 @@ def lean_cls(e) -> str:
 
 
 def test_classes(test, param: str) -> List[str]:
-    """the class list of one rung's test"""
+    """the class list of one rung's test: `isinstance(p, T)`, `isinstance(p, (T1, …))`, `isinstance(p, T1 | T2)`,
+    `p is None`, and any `or` of such tests (= the union of their classes, in order)"""
+    if isinstance(test, ast.BoolOp) and isinstance(test.op, ast.Or):
+        out: List[str] = []
+        for v in test.values:
+            out += test_classes(v, param)
+        return out
     if (isinstance(test, ast.Compare) and len(test.ops) == 1 and isinstance(test.ops[0], ast.Is)
             and isinstance(test.left, ast.Name) and test.left.id == param
             and isinstance(test.comparators[0], ast.Constant) and test.comparators[0].value is None):
         return ["PCls.noneType"]
     if (isinstance(test, ast.Call) and isinstance(test.func, ast.Name) and test.func.id == "isinstance"
-            and len(test.args) == 2 and isinstance(test.args[0], ast.Name) and test.args[0].id == param):
-        t = test.args[1]
-        if isinstance(t, ast.Tuple):
-            return [lean_cls(x) for x in t.elts]
-        return [lean_cls(t)]
+            and len(test.args) == 2 and not test.keywords and isinstance(test.args[0], ast.Name) and test.args[0].id == param):
+        def classes(t) -> List[str]:
+            if isinstance(t, ast.Tuple):
+                return [c for x in t.elts for c in classes(x)]
+            if isinstance(t, ast.BinOp) and isinstance(t.op, ast.BitOr):
+                return classes(t.left) + classes(t.right)
+            return [lean_cls(t)]
+        return classes(test.args[1])
     raise TranslationError(f"test outside the subset: {ast.unparse(test)}")
 
 
-def ladder(fn: ast.FunctionDef, param: str) -> Tuple[List[Tuple[List[str], ast.stmt]], List[ast.stmt]]:
-    """[(classes, return-statement)], else-body"""
-    body = strip_doc(fn.body)
-    if len(body) != 1 or not isinstance(body[0], ast.If):
-        raise TranslationError(f"{fn.name}: body is not a single if/elif/else ladder")
+def is_class_test(test, param: str) -> bool:
+    """syntactically a class test on `param` (the classes themselves are checked by test_classes)"""
+    if isinstance(test, ast.BoolOp) and isinstance(test.op, ast.Or):
+        return all(is_class_test(v, param) for v in test.values)
+    if isinstance(test, ast.Compare):
+        return (len(test.ops) == 1 and isinstance(test.ops[0], ast.Is) and isinstance(test.left, ast.Name)
+                and test.left.id == param and isinstance(test.comparators[0], ast.Constant)
+                and test.comparators[0].value is None)
+    return (isinstance(test, ast.Call) and isinstance(test.func, ast.Name) and test.func.id == "isinstance"
+            and len(test.args) == 2 and isinstance(test.args[0], ast.Name) and test.args[0].id == param)
+
+
+# --------------------------------------------------------------------------------------------------
+# normalisation: a function body → a decision tree of `return` / `raise` leaves
+#
+# Every statement is either consumed with its exact meaning or the translation fails; nothing is skipped
+# (docstrings and `pass` excepted).  The rewrites are the meaning-preserving ones a refactoring makes:
+#   * `if T: …return…` followed by more statements  ==  `if T: … else: <the rest>`  (early returns)
+#   * `return A if T else B`                        ==  `if T: return A else: return B`
+#   * `name = <dotted name>` (an alias such as `to_python = CELJSONEncoder.to_python`) is substituted;
+#     `name = <expression>` inside ONE straight-line block is substituted into its single later use
+#     (a hoisted sub-expression) — never across an `if`, never when unused or used twice
+#   * `acc = []` + `for x in it: acc.append(E)`     ==  `acc = [E for x in it]`
+#     `acc = {}` + `for k, v in it: acc[K] = V`     ==  `acc = {K: V for k, v in it}`
+#   * a call of a one-expression module-level function / method of the same class is inlined (one level)
+# --------------------------------------------------------------------------------------------------
+
+class Leaf:
+    def __init__(self, kind: str, expr):
+        self.kind, self.expr = kind, expr      # kind: "return" | "raise"
+
+
+class Branch:
+    def __init__(self, test, then, orelse):
+        self.test, self.then, self.orelse = test, then, orelse
+
+
+def _is_alias_value(e) -> bool:
+    """a dotted name: evaluating it has no effect and cannot fail in a module that imports cleanly"""
+    while isinstance(e, ast.Attribute):
+        e = e.value
+    return isinstance(e, ast.Name)
+
+
+def _is_empty_list(e) -> bool:
+    return (isinstance(e, ast.List) and not e.elts) or (isinstance(e, ast.Call) and ast.unparse(e) == "list()")
+
+
+def _is_empty_dict(e) -> bool:
+    return (isinstance(e, ast.Dict) and not e.keys) or (isinstance(e, ast.Call) and ast.unparse(e) == "dict()")
+
+
+class _Env:
+    """local name → (expression, is_alias); `uses` counts substitutions of hoisted (non-alias) expressions"""
+
+    def __init__(self, parent: Optional["_Env"] = None):
+        self.vars: Dict[str, Tuple[ast.expr, bool]] = dict(parent.vars) if parent else {}
+        self.uses: Dict[str, int] = dict(parent.uses) if parent else {}
+
+    def hoisted(self) -> List[str]:
+        return [n for n, (_, alias) in self.vars.items() if not alias]
+
+
+def _bound_names(e) -> set:
+    out = set()
+    for n in ast.walk(e):
+        if isinstance(n, ast.comprehension):
+            for t in ast.walk(n.target):
+                if isinstance(t, ast.Name):
+                    out.add(t.id)
+        elif isinstance(n, ast.Lambda):
+            raise TranslationError("lambda in a translated expression")
+        elif isinstance(n, ast.NamedExpr):
+            raise TranslationError("walrus assignment in a translated expression")
+    return out
+
+
+def _subst(e, env: _Env):
+    """replace loads of local names by the expressions they stand for"""
+    if e is None:
+        return ast.Constant(value=None)
+    clash = _bound_names(e) & set(env.vars)
+    if clash:
+        raise TranslationError(f"comprehension variable shadows a local: {sorted(clash)}")
+
+    class T(ast.NodeTransformer):
+        def visit_Name(self, n):
+            if isinstance(n.ctx, ast.Load) and n.id in env.vars:
+                val, alias = env.vars[n.id]
+                if not alias:
+                    env.uses[n.id] = env.uses.get(n.id, 0) + 1
+                return copy.deepcopy(val)
+            return n
+    return T().visit(copy.deepcopy(e))
+
+
+def _assign_parts(st) -> Optional[Tuple[str, ast.expr]]:
+    if isinstance(st, ast.Assign) and len(st.targets) == 1 and isinstance(st.targets[0], ast.Name):
+        return st.targets[0].id, st.value
+    if isinstance(st, ast.AnnAssign) and isinstance(st.target, ast.Name) and st.value is not None and st.simple:
+        return st.target.id, st.value
+    return None
+
+
+def _bind(env: _Env, name: str, value, param: str, fname: str) -> None:
+    if name == param:
+        raise TranslationError(f"{fname}: the parameter {param} is re-bound")
+    if name in env.vars and not env.vars[name][1] and env.uses.get(name, 0) != 1:
+        raise TranslationError(f"{fname}: local {name} is re-bound before its single use")
+    v = _subst(value, env)
+    env.vars[name] = (v, _is_alias_value(v))
+    env.uses[name] = 0
+
+
+def _loop_to_comprehension(st: ast.For, env: _Env, param: str, fname: str) -> None:
+    """`for T in IT: [hoisted locals;] acc.append(E)` / `acc[K] = V` with `acc` bound to an empty list / dict"""
+    if st.orelse or getattr(st, "type_comment", None):
+        raise TranslationError(f"{fname}: for/else")
+    targets = [n.id for n in ast.walk(st.target) if isinstance(n, ast.Name)]
+    if not (isinstance(st.target, ast.Name) or (isinstance(st.target, ast.Tuple) and all(isinstance(x, ast.Name) for x in st.target.elts))):
+        raise TranslationError(f"{fname}: loop target outside the subset")
+    if param in targets or any(t in env.vars for t in targets):
+        raise TranslationError(f"{fname}: loop variable shadows a local")
+    it = _subst(st.iter, env)
+    inner = _Env(env)
+    body = [b for b in st.body if not isinstance(b, ast.Pass)]
+    if not body:
+        raise TranslationError(f"{fname}: empty loop")
+    for b in body[:-1]:
+        ap = _assign_parts(b)
+        if ap is None or ap[0] in targets or ap[0] in env.vars:
+            raise TranslationError(f"{fname}: loop body outside the subset: {ast.unparse(b)[:60]}")
+        _bind(inner, ap[0], ap[1], param, fname)
+    last = body[-1]
+    gen = ast.comprehension(target=copy.deepcopy(st.target), iter=it, ifs=[], is_async=0)
+    for t in ast.walk(gen.target):
+        if isinstance(t, ast.Name):
+            t.ctx = ast.Store()
+    if (isinstance(last, ast.Expr) and isinstance(last.value, ast.Call) and isinstance(last.value.func, ast.Attribute)
+            and last.value.func.attr == "append" and isinstance(last.value.func.value, ast.Name)
+            and len(last.value.args) == 1 and not last.value.keywords):
+        acc = last.value.func.value.id
+        if acc not in env.vars or not _is_empty_list(env.vars[acc][0]) or env.uses.get(acc, 0) != 0:
+            raise TranslationError(f"{fname}: {acc}.append(…) on something that is not a fresh empty list")
+        new = ast.ListComp(elt=_subst(last.value.args[0], inner), generators=[gen])
+    elif (isinstance(last, ast.Assign) and len(last.targets) == 1 and isinstance(last.targets[0], ast.Subscript)
+          and isinstance(last.targets[0].value, ast.Name)):
+        acc = last.targets[0].value.id
+        if acc not in env.vars or not _is_empty_dict(env.vars[acc][0]) or env.uses.get(acc, 0) != 0:
+            raise TranslationError(f"{fname}: {acc}[…] = … on something that is not a fresh empty dict")
+        new = ast.DictComp(key=_subst(last.targets[0].slice, inner), value=_subst(last.value, inner), generators=[gen])
+    else:
+        raise TranslationError(f"{fname}: loop body outside the subset: {ast.unparse(last)[:60]}")
+    for n in inner.hoisted():
+        if n not in env.vars and inner.uses.get(n, 0) != 1:
+            raise TranslationError(f"{fname}: loop local {n} is not used exactly once")
+    env.vars[acc] = (ast.fix_missing_locations(new), False)
+    env.uses[acc] = 0
+
+
+def _check_hoisted_used(env: _Env, outer: _Env, fname: str) -> None:
+    """at a leaf: every expression hoisted in this straight-line block has been substituted exactly once"""
+    for n in env.hoisted():
+        if n in outer.vars and outer.vars[n] is env.vars[n]:
+            continue
+        if env.uses.get(n, 0) != 1:
+            raise TranslationError(f"{fname}: local {n} is evaluated but used {env.uses.get(n, 0)} times")
+
+
+def build_tree(stmts, env: _Env, param: str, fname: str, block_env: Optional[_Env] = None):
+    """statement list → Leaf | Branch"""
+    env = _Env(env)
+    start = block_env if block_env is not None else _Env(env)
+    stmts = [s for s in stmts if not isinstance(s, ast.Pass)]
+    for i, st in enumerate(stmts):
+        rest = stmts[i + 1:]
+        if isinstance(st, ast.Expr) and isinstance(st.value, ast.Constant):
+            continue                                   # docstring / a bare constant: no effect
+        ap = _assign_parts(st)
+        if ap is not None:
+            _bind(env, ap[0], ap[1], param, fname)
+            continue
+        if isinstance(st, ast.For):
+            _loop_to_comprehension(st, env, param, fname)
+            continue
+        if isinstance(st, ast.Return):
+            leaf = Leaf("return", _subst(st.value, env))
+            _check_hoisted_used(env, start, fname)
+            return leaf
+        if isinstance(st, ast.Raise):
+            if st.exc is None:
+                raise TranslationError(f"{fname}: bare raise")
+            leaf = Leaf("raise", _subst(st.exc, env))
+            _check_hoisted_used(env, start, fname)
+            return leaf
+        if isinstance(st, ast.If):
+            pending = [n for n in env.hoisted() if not (n in start.vars and start.vars[n] is env.vars[n])]
+            if pending:
+                raise TranslationError(f"{fname}: {pending} evaluated before an `if` (not a straight-line hoist)")
+            test = _subst(st.test, env)
+            return Branch(test, build_tree(list(st.body) + rest, env, param, fname),
+                          build_tree(list(st.orelse) + rest, env, param, fname))
+        raise TranslationError(f"{fname}: statement outside the subset: {ast.unparse(st)[:70]}")
+    _check_hoisted_used(env, start, fname)
+    return Leaf("return", ast.Constant(value=None))      # falling off the end
+
+
+def split_ifexp(tree, param: str):
+    """`return A if <class test> else B` is a branch; a branch on a non-class test whose arms are plain returns is
+    the conditional expression"""
+    if isinstance(tree, Leaf):
+        e = tree.expr
+        if tree.kind == "return" and isinstance(e, ast.IfExp) and is_class_test(e.test, param):
+            return Branch(e.test, split_ifexp(Leaf("return", e.body), param), split_ifexp(Leaf("return", e.orelse), param))
+        return tree
+    then, orelse = split_ifexp(tree.then, param), split_ifexp(tree.orelse, param)
+    if (not is_class_test(tree.test, param) and isinstance(then, Leaf) and isinstance(orelse, Leaf)
+            and then.kind == orelse.kind == "return"):
+        return Leaf("return", ast.IfExp(test=tree.test, body=then.expr, orelse=orelse.expr))
+    return Branch(tree.test, then, orelse)
+
+
+class Scope:
+    """where one-expression helpers are looked up for inlining: the module and (for `Cls.f` / `self.f` / `cls.f`) a class"""
+
+    def __init__(self, mod: ast.Module, cls: Optional[ast.ClassDef], keep: Tuple[str, ...]):
+        self.mod, self.cls, self.keep = mod, cls, keep
+
+    def lookup(self, func) -> Optional[Tuple[ast.FunctionDef, bool]]:
+        """(definition, takes an implicit first argument)"""
+        if isinstance(func, ast.Name):
+            if func.id in self.keep:
+                return None
+            for n in self.mod.body:
+                if isinstance(n, ast.FunctionDef) and n.name == func.id:
+                    return n, False
+            return None
+        if (isinstance(func, ast.Attribute) and isinstance(func.value, ast.Name) and self.cls is not None
+                and func.value.id in (self.cls.name, "self", "cls") and func.attr not in self.keep):
+            for n in self.cls.body:
+                if isinstance(n, ast.FunctionDef) and n.name == func.attr:
+                    decos = {ast.unparse(d) for d in n.decorator_list}
+                    if decos == {"staticmethod"}:
+                        return n, False
+                    if decos in (set(), {"classmethod"}) and func.value.id in ("self", "cls"):
+                        return n, True
+                    return None
+        return None
+
+
+def inline_helpers(e, scope: Scope, fname: str):
+    """replace calls of one-expression helpers by their bodies (one level; arguments must be plain names / dotted names so
+    that nothing is duplicated or dropped)"""
+    class T(ast.NodeTransformer):
+        def visit_Call(self, n):
+            n = self.generic_visit(n)
+            hit = scope.lookup(n.func)
+            if hit is None:
+                return n
+            fn, implicit = hit
+            a = fn.args
+            if a.vararg or a.kwarg or a.kwonlyargs or a.posonlyargs or a.defaults or n.keywords or fn.decorator_list and not (
+                    {ast.unparse(d) for d in fn.decorator_list} <= {"staticmethod", "classmethod"}):
+                raise TranslationError(f"{fname}: helper {fn.name} has a signature outside the subset")
+            params = [x.arg for x in a.args][1 if implicit else 0:]
+            if len(params) != len(n.args) or not all(_is_alias_value(x) for x in n.args):
+                raise TranslationError(f"{fname}: call of helper {fn.name} outside the subset: {ast.unparse(n)[:60]}")
+            t = build_tree(fn.body, _Env(), params[0] if params else "", fn.name)
+            if not (isinstance(t, Leaf) and t.kind == "return"):
+                raise TranslationError(f"{fname}: helper {fn.name} is not a single expression")
+            env = _Env()
+            for p_, x in zip(params, n.args):
+                env.vars[p_] = (x, True)
+            if implicit and any(isinstance(m, ast.Name) and m.id == a.args[0].arg for m in ast.walk(t.expr)):
+                raise TranslationError(f"{fname}: helper {fn.name} uses its implicit argument")
+            return _subst(t.expr, env)
+    return T().visit(copy.deepcopy(e))
+
+
+def ladder(fn: ast.FunctionDef, param: str, scope: Optional[Scope] = None) -> Tuple[List[Tuple[List[str], Leaf]], Leaf]:
+    """[(classes, leaf)], else-leaf — the first-match ladder the body of `fn` is equivalent to"""
+    tree = split_ifexp(build_tree(fn.body, _Env(), param, fn.name), param)
+
+    def inl(leaf: Leaf) -> Leaf:
+        return Leaf(leaf.kind, inline_helpers(leaf.expr, scope, fn.name)) if scope is not None else leaf
     rungs = []
-    node = body[0]
-    while True:
-        if len(node.body) != 1 or not isinstance(node.body[0], ast.Return):
-            raise TranslationError(f"{fn.name}: a rung is not a single return: {ast.unparse(node.body[0])[:60]}")
-        rungs.append((test_classes(node.test, param), node.body[0]))
-        if len(node.orelse) == 1 and isinstance(node.orelse[0], ast.If):
-            node = node.orelse[0]
-        else:
-            return rungs, node.orelse
+    node = tree
+    while isinstance(node, Branch):
+        if not isinstance(node.then, Leaf):
+            raise TranslationError(f"{fn.name}: nested decision under `{ast.unparse(node.test)[:50]}`")
+        rungs.append((test_classes(node.test, param), inl(node.then)))
+        node = node.orelse
+    return rungs, inl(node)
+
+
+def single_expr(fn: ast.FunctionDef, param: str, scope: Optional[Scope] = None):
+    """the one expression a function without decisions returns"""
+    t = build_tree(fn.body, _Env(), param, fn.name)
+    if not (isinstance(t, Leaf) and t.kind == "return"):
+        raise TranslationError(f"{fn.name}: not a single return")
+    return inline_helpers(t.expr, scope, fn.name) if scope is not None else t.expr
 
 
 def is_name(e, name) -> bool:
@@ -83,12 +379,26 @@ def is_call_of(e, fnames, argname) -> bool:
             and is_name(e.args[0], argname))
 
 
-def list_comp_of(e, fnames, param) -> bool:
-    """[f(x) for x in param]"""
-    if not (isinstance(e, ast.ListComp) and len(e.generators) == 1):
+def _map_call_of(e, fnames, param) -> bool:
+    """list(map(f, param))"""
+    return (isinstance(e, ast.Call) and is_name(e.func, "list") and len(e.args) == 1 and not e.keywords
+            and isinstance(e.args[0], ast.Call) and is_name(e.args[0].func, "map") and len(e.args[0].args) == 2
+            and not e.args[0].keywords and ast.unparse(e.args[0].args[0]) in fnames and is_name(e.args[0].args[1], param))
+
+
+def list_comp_of(e, fnames, param, genexp_ok: bool = False) -> bool:
+    """[f(x) for x in param]   (also `list(f(x) for x in param)`, `list(map(f, param))`; a bare generator expression only where
+    the consumer is a list constructor: genexp_ok)"""
+    if isinstance(e, ast.Call) and is_name(e.func, "list") and len(e.args) == 1 and not e.keywords and isinstance(e.args[0], ast.GeneratorExp):
+        e = e.args[0]
+    elif _map_call_of(e, fnames, param):
+        return True
+    elif isinstance(e, ast.GeneratorExp) and not genexp_ok:
+        return False
+    if not (isinstance(e, (ast.ListComp, ast.GeneratorExp)) and len(e.generators) == 1):
         return False
     g = e.generators[0]
-    return (not g.ifs and isinstance(g.target, ast.Name) and is_name(g.iter, param)
+    return (not g.ifs and not g.is_async and isinstance(g.target, ast.Name) and is_name(g.iter, param)
             and is_call_of(e.elt, fnames, g.target.id))
 
 
@@ -97,29 +407,55 @@ def dict_comp_of(e, fnames, param) -> bool:
     if not (isinstance(e, ast.DictComp) and len(e.generators) == 1):
         return False
     g = e.generators[0]
-    if g.ifs or not (isinstance(g.target, ast.Tuple) and len(g.target.elts) == 2
-                     and all(isinstance(x, ast.Name) for x in g.target.elts)):
+    if g.ifs or g.is_async or not (isinstance(g.target, ast.Tuple) and len(g.target.elts) == 2
+                                   and all(isinstance(x, ast.Name) for x in g.target.elts)):
         return False
     k, v = g.target.elts[0].id, g.target.elts[1].id
-    if ast.unparse(g.iter) != f"{param}.items()":
+    if k == v or ast.unparse(g.iter) != f"{param}.items()":
         return False
     return is_call_of(e.key, fnames, k) and is_call_of(e.value, fnames, v)
 
 
+def is_str_of(v, p: str) -> bool:
+    """str(p) and its spellings: p.__str__(), f"{p}", f"{p!s}", format(p), "{}".format(p), "%s" % p"""
+    if is_call_of(v, ("str", "format"), p):
+        return True
+    if isinstance(v, ast.JoinedStr) and len(v.values) == 1 and isinstance(v.values[0], ast.FormattedValue):
+        fv = v.values[0]
+        return is_name(fv.value, p) and fv.conversion in (-1, 115) and fv.format_spec is None
+    return ast.unparse(v) in (f"{p}.__str__()", f"'{{}}'.format({p})", f"'{{0}}'.format({p})", f"'%s' % {p}", f"'%s' % ({p},)")
+
+
+def is_b64_of(v, p: str) -> bool:
+    """base64.b64encode(p).decode("ASCII") and its spellings (the output of b64encode is pure ASCII, so every ASCII-compatible
+    codec gives the same text)"""
+    txt = ast.unparse(v)
+    for fn_ in ("base64.b64encode", "base64.standard_b64encode"):
+        if txt == f"{fn_}({p}).decode()":
+            return True
+        for codec in ("'ASCII'", "'ascii'", "'utf-8'", "'UTF-8'", "'latin-1'", "'us-ascii'"):
+            if txt in (f"{fn_}({p}).decode({codec})", f"str({fn_}({p}), {codec})"):
+                return True
+    return False
+
+
 def gen_json_ladder() -> str:
     m = parse("src/celpy/adapter.py")
-    out = [HEADER.format(src="src/celpy/adapter.py (json_to_cel, CELJSONEncoder), src/celpy/celtypes.py (class bases, valid_key_type), src/celpy/evaluation.py (member_index handlers)"),
+    out = [HEADER.format(src="src/celpy/adapter.py (json_to_cel, CELJSONEncoder, CELJSONDecoder), src/celpy/celtypes.py (class bases, valid_key_type, DurationType.__str__), src/celpy/evaluation.py (member_index handlers)"),
            "import Cel.Model.Json\nnamespace Cel.Gen\nopen Cel.JsonM (PCls Ctor ToPy DefaultAct)\n"]
+    enc = find_class(m, "CELJSONEncoder")
 
     # ---- json_to_cel ------------------------------------------------------------------------------
     fn = find_func(m.body, "json_to_cel")
-    if len(fn.args.args) != 1:
-        raise TranslationError("json_to_cel: expected one parameter")
+    if len(fn.args.args) != 1 or fn.decorator_list:
+        raise TranslationError("json_to_cel: expected one parameter and no decorator")
     p = fn.args.args[0].arg
-    rungs, orelse = ladder(fn, p)
+    rungs, orelse = ladder(fn, p, Scope(m, None, ("json_to_cel",)))
     items = []
-    for classes, ret in rungs:
-        v = ret.value
+    for classes, leaf in rungs:
+        v = leaf.expr
+        if leaf.kind != "return":
+            raise TranslationError(f"json_to_cel: a rung raises: {ast.unparse(v)[:60]}")
         if isinstance(v, ast.Constant) and v.value is None:
             ctor = "none"
         elif isinstance(v, ast.Call) and len(v.args) == 1 and not v.keywords:
@@ -129,7 +465,7 @@ def gen_json_ladder() -> str:
             ctor = CTOR[cname]
             a = v.args[0]
             if ctor == "listType":
-                if not list_comp_of(a, ("json_to_cel",), p):
+                if not list_comp_of(a, ("json_to_cel",), p, genexp_ok=True):
                     raise TranslationError(f"json_to_cel: ListType argument outside the subset: {ast.unparse(a)}")
             elif ctor == "mapType":
                 if not dict_comp_of(a, ("json_to_cel",), p):
@@ -137,25 +473,29 @@ def gen_json_ladder() -> str:
             elif not is_name(a, p):
                 raise TranslationError(f"json_to_cel: {cname} is not applied to the document itself: {ast.unparse(a)}")
         else:
-            raise TranslationError(f"json_to_cel: return outside the subset: {ast.unparse(ret)}")
+            raise TranslationError(f"json_to_cel: return outside the subset: {ast.unparse(v)}")
         items.append(f"({lean_list(classes)}, Ctor.{ctor})")
     out.append("/-- the isinstance ladder of `adapter.json_to_cel`, in source order -/")
     out.append("def jsonLadder : List (List PCls × Ctor) :=\n  " + lean_list(items))
-    if not (len(orelse) == 1 and isinstance(orelse[0], ast.Raise)):
-        raise TranslationError("json_to_cel: else branch is not a single raise")
-    exc = orelse[0].exc
+    if orelse.kind != "raise":
+        raise TranslationError("json_to_cel: falling off the ladder is not a raise")
+    exc = orelse.expr
     ename = ast.unparse(exc.func) if isinstance(exc, ast.Call) else ast.unparse(exc)
     out.append(f"def jsonLadderElse : Cel.Exc := {lean_exc(ename)}\n")
 
     # ---- CELJSONEncoder ----------------------------------------------------------------------------
-    enc = find_class(m, "CELJSONEncoder")
     tp = find_func(enc.body, "to_python")
+    if len(tp.args.args) != 1 or {ast.unparse(d) for d in tp.decorator_list} != {"staticmethod"}:
+        raise TranslationError("to_python: expected a static method of one parameter")
     p = tp.args.args[0].arg
-    rungs, orelse = ladder(tp, p)
-    rec = ("CELJSONEncoder.to_python", "to_python", "cls.to_python")
+    keep = ("to_python", "default", "encode", "json_to_cel")
+    rungs, orelse = ladder(tp, p, Scope(m, enc, keep))
+    rec = ("CELJSONEncoder.to_python",)
     items = []
-    for classes, ret in rungs:
-        v = ret.value
+    for classes, leaf in rungs:
+        v = leaf.expr
+        if leaf.kind != "return":
+            raise TranslationError(f"to_python: a rung raises: {ast.unparse(v)[:60]}")
         if (isinstance(v, ast.IfExp) and is_name(v.test, p) and isinstance(v.body, ast.Constant) and v.body.value is True
                 and isinstance(v.orelse, ast.Constant) and v.orelse.value is False) or is_call_of(v, ("bool",), p):
             act = "bool"
@@ -164,41 +504,63 @@ def gen_json_ladder() -> str:
         elif dict_comp_of(v, rec, p):
             act = "dict"
         else:
-            raise TranslationError(f"to_python: return outside the subset: {ast.unparse(ret)}")
+            raise TranslationError(f"to_python: return outside the subset: {ast.unparse(v)}")
         items.append(f"({lean_list(classes)}, ToPy.{act})")
-    if not (len(orelse) == 1 and isinstance(orelse[0], ast.Return) and is_name(orelse[0].value, p)):
+    if not (orelse.kind == "return" and is_name(orelse.expr, p)):
         raise TranslationError("to_python: else branch does not return the object itself")
     out.append("/-- the ladder of `CELJSONEncoder.to_python` (else: the object itself) -/")
     out.append("def toPythonLadder : List (List PCls × ToPy) :=\n  " + lean_list(items) + "\n")
 
     df = find_func(enc.body, "default")
+    if len(df.args.args) != 2 or df.decorator_list:
+        raise TranslationError("default: expected (self, obj)")
     p = df.args.args[1].arg
-    rungs, orelse = ladder(df, p)
+    rungs, orelse = ladder(df, p, Scope(m, enc, keep))
     items = []
-    for classes, ret in rungs:
-        v = ret.value
-        if is_call_of(v, ("str",), p):
+    for classes, leaf in rungs:
+        v = leaf.expr
+        if leaf.kind != "return":
+            raise TranslationError(f"default: a rung raises: {ast.unparse(v)[:60]}")
+        if isinstance(v, ast.Call) and ast.unparse(v.func) == "cast" and len(v.args) == 2 and not v.keywords:
+            v = v.args[1]                                    # typing.cast is the identity
+        if is_str_of(v, p):
             act = "strOf"
-        elif ast.unparse(v) in (f"base64.b64encode({p}).decode('ASCII')", f"base64.b64encode({p}).decode('ascii')",
-                                f"base64.b64encode({p}).decode()", f"base64.standard_b64encode({p}).decode('ASCII')"):
+        elif is_b64_of(v, p):
             act = "base64"
         else:
-            raise TranslationError(f"default: return outside the subset: {ast.unparse(ret)}")
+            raise TranslationError(f"default: return outside the subset: {ast.unparse(v)}")
         items.append(f"({lean_list(classes)}, DefaultAct.{act})")
-    ok_else = (len(orelse) == 1 and isinstance(orelse[0], ast.Return)
-               and f"super().default({p})" in ast.unparse(orelse[0].value))
+    sup = (f"super().default({p})", f"json.JSONEncoder.default(self, {p})", f"super(CELJSONEncoder, self).default({p})")
+    ev_ = orelse.expr
+    if isinstance(ev_, ast.Call) and ast.unparse(ev_.func) == "cast" and len(ev_.args) == 2:
+        ev_ = ev_.args[1]
+    ok_else = ((orelse.kind == "return" and ast.unparse(ev_) in sup)
+               or (orelse.kind == "raise" and (ast.unparse(ev_.func) if isinstance(ev_, ast.Call) else ast.unparse(ev_)) == "TypeError"))
     if not ok_else:
-        raise TranslationError("default: else branch is not `return super().default(obj)`")
+        raise TranslationError("default: else branch is neither `return super().default(obj)` nor `raise TypeError`")
     out.append("/-- the ladder of `CELJSONEncoder.default` (else: `super().default`, TypeError) -/")
     out.append("def defaultLadder : List (List PCls × DefaultAct) :=\n  " + lean_list(items) + "\n")
 
     en = find_func(enc.body, "encode")
+    if len(en.args.args) != 2 or en.decorator_list:
+        raise TranslationError("encode: expected (self, obj)")
     p = en.args.args[1].arg
-    body = strip_doc(en.body)
-    good = (len(body) == 1 and isinstance(body[0], ast.Return)
-            and ast.unparse(body[0].value) in (f"super().encode(CELJSONEncoder.to_python({p}))", f"super().encode(self.to_python({p}))"))
+    e_ = ast.unparse(single_expr(en, p, Scope(m, enc, keep)))
+    tops = (f"CELJSONEncoder.to_python({p})", f"self.to_python({p})")
+    good = e_ in [w % t for t in tops for w in ("super().encode(%s)", "json.JSONEncoder.encode(self, %s)", "super(CELJSONEncoder, self).encode(%s)")]
     out.append("/-- `CELJSONEncoder.encode` is `super().encode(to_python(obj))` -/")
     out.append(f"def encodeAppliesToPython : Bool := {'true' if good else 'false'}\n")
+
+    # ---- CELJSONDecoder.decode = json_to_cel ∘ json's decode -------------------------------------------
+    dec = find_class(m, "CELJSONDecoder")
+    dd = find_func(dec.body, "decode")
+    if len(dd.args.args) < 2 or dd.decorator_list:
+        raise TranslationError("decode: expected (self, source, …)")
+    p = dd.args.args[1].arg
+    e_ = ast.unparse(single_expr(dd, p, Scope(m, dec, ("decode", "json_to_cel"))))
+    good = e_ in [f"json_to_cel({w})" for w in (f"super().decode({p})", f"json.JSONDecoder.decode(self, {p})", f"super(CELJSONDecoder, self).decode({p})")]
+    out.append("/-- `CELJSONDecoder.decode` is `json_to_cel(super().decode(source))` -/")
+    out.append(f"def decodeAppliesJsonToCel : Bool := {'true' if good else 'false'}\n")
 
     # ---- celtypes: class bases and valid_key_type ---------------------------------------------------
     ct = parse("src/celpy/celtypes.py")
@@ -211,11 +573,36 @@ def gen_json_ladder() -> str:
         bases.append(f"(PCls.{PY_CLS[cname]}, {lean_cls(c.bases[0])})")
     out.append("/-- (class, its base class) for the celtypes wrappers -/")
     out.append("def clsBases : List (PCls × PCls) :=\n  " + lean_list(bases) + "\n")
-    vk = find_func(find_class(ct, "MapType").body, "valid_key_type")
-    body = strip_doc(vk.body)
-    if len(body) != 1 or not isinstance(body[0], ast.Return):
-        raise TranslationError("valid_key_type: not a single return")
-    out.append("def validKeyClasses : List PCls := " + lean_list(test_classes(body[0].value, vk.args.args[0].arg)) + "\n")
+    mt = find_class(ct, "MapType")
+    vk = find_func(mt.body, "valid_key_type")
+    kp = vk.args.args[0].arg
+    out.append("def validKeyClasses : List PCls := " + lean_list(test_classes(single_expr(vk, kp, Scope(ct, mt, ("valid_key_type",))), kp)) + "\n")
+
+    # ---- DurationType.__str__: which integer number of seconds is written ---------------------------------
+    ds = find_func(find_class(ct, "DurationType").body, "__str__")
+    if len(ds.args.args) != 1 or ds.decorator_list:
+        raise TranslationError("DurationType.__str__: expected (self)")
+    sp = ds.args.args[0].arg
+    e = single_expr(ds, sp, None)
+    txt = ast.unparse(e)
+    secs = None
+    for pre, post in (("'{0}s'.format(", ")"), ("'{}s'.format(", ")"), ("'%ds' % ", ""), ("'%ss' % ", ""), ("str(", ") + 's'")):
+        if txt.startswith(pre) and txt.endswith(post) and len(txt) > len(pre) + len(post):
+            secs = txt[len(pre):len(txt) - len(post)]
+            break
+    if secs is None and isinstance(e, ast.JoinedStr) and len(e.values) == 2 and isinstance(e.values[0], ast.FormattedValue) \
+            and e.values[0].conversion == -1 and e.values[0].format_spec is None \
+            and isinstance(e.values[1], ast.Constant) and e.values[1].value == "s":
+        secs = ast.unparse(e.values[0].value)
+    one_s = ("timedelta(seconds=1)", "datetime.timedelta(seconds=1)")
+    if secs in (f"int({sp}.total_seconds())", f"math.trunc({sp}.total_seconds())", f"int(datetime.timedelta.total_seconds({sp}))"):
+        body = "(Cel.Time.totalSeconds us).trunc"         # binary64 quotient, truncated toward zero
+    elif secs in [f"{sp} // {o}" for o in one_s] + [f"({sp} // {o})" for o in one_s]:
+        body = "us / 1000000"                              # exact floor division (divisor positive)
+    else:
+        raise TranslationError(f"DurationType.__str__ outside the subset: {txt}")
+    out.append("/-- the number `DurationType.__str__` writes before the `s`, for a duration of `us` microseconds -/")
+    out.append(f"def durSeconds (us : Int) : Int := {body}\n")
 
     # ---- evaluation: member_index handlers -----------------------------------------------------------
     ev = parse("src/celpy/evaluation.py")
